@@ -26,12 +26,13 @@ type Program struct {
 }
 
 type funcInfo struct {
-	slots    map[ssa.Value]int
-	n        int
-	override intrinsic
-	allowed  bool
-	name     string
-	nInstr   int
+	slots     map[ssa.Value]int
+	n         int
+	override  intrinsic
+	hbTracked int8
+	allowed   bool
+	name      string
+	nInstr    int
 }
 
 type intrinsic func(ex *Exec, fr *frame, args []value) value
@@ -128,6 +129,8 @@ type Exec struct {
 	sampleCount         int
 	pinNext             *pinSpec
 	hbFilter            func(*frame) bool
+	hbWhat              string
+	raceReported        map[string]bool
 	clock               uint64
 	FastPath            bool
 	CrossCheck          bool
@@ -174,6 +177,7 @@ func NewExec(p *Program, solver *sym.Solver) *Exec {
 		funcsSeen:      map[*ssa.Function]int{},
 		intrinsicsSeen: map[string]int{},
 		witnessed:      map[string]bool{},
+		raceReported:   map[string]bool{},
 		regexps:        map[string]*vregexp{},
 		mcache:         map[mkey]*ssa.Function{},
 	}
@@ -312,6 +316,9 @@ func (ex *Exec) visitInstr(fr *frame, instr ssa.Instruction) (ret bool) {
 	switch instr := instr.(type) {
 	case *ssa.DebugRef:
 	case *ssa.UnOp:
+		if ex.hb != nil && instr.Op == token.MUL {
+			ex.hbWhat = accessDesc(instr.X)
+		}
 		fr.set(instr, ex.unop(instr, fr.get(instr.X)))
 	case *ssa.BinOp:
 		fr.set(instr, ex.binop(instr.Op, instr.X.Type(), instr.Y.Type(), fr.get(instr.X), fr.get(instr.Y)))
@@ -362,6 +369,9 @@ func (ex *Exec) visitInstr(fr *frame, instr ssa.Instruction) (ret bool) {
 		p := fr.get(instr.Addr).(*value)
 		if p == nil {
 			ex.rtPanic("invalid memory address or nil pointer dereference")
+		}
+		if ex.hb != nil {
+			ex.hbWhat = accessDesc(instr.Addr)
 		}
 		ex.hbWrite(p)
 		store(deref(instr.Addr.Type()), p, fr.get(instr.Val))
@@ -530,6 +540,35 @@ func (ex *Exec) index(idx value, it types.Type, n int) int {
 		ex.rtPanic(fmt.Sprintf("index out of range [%d] with length %d", i, n))
 	}
 	return int(i)
+}
+
+// accessDesc names the memory location an address value denotes (for race reports).
+func accessDesc(addr ssa.Value) string {
+	switch a := addr.(type) {
+	case *ssa.FieldAddr:
+		st := deref(a.X.Type()).Underlying().(*types.Struct)
+		tn := deref(a.X.Type()).String()
+		if i := strings.LastIndex(tn, "."); i >= 0 {
+			tn = tn[i+1:]
+		}
+		return tn + "." + st.Field(a.Field).Name()
+	case *ssa.IndexAddr:
+		return accessDesc0(a.X) + "[i]"
+	case *ssa.Global:
+		return "global " + a.Name()
+	case *ssa.FreeVar:
+		return "captured " + a.Name()
+	case *ssa.Alloc:
+		return "local " + a.Comment
+	}
+	return "memory"
+}
+
+func accessDesc0(v ssa.Value) string {
+	if u, ok := v.(*ssa.UnOp); ok {
+		return accessDesc(u.X)
+	}
+	return "slice"
 }
 
 // symElem is the address of arr[idx] for a symbolic idx into a table of
